@@ -349,6 +349,9 @@ func (ex *Exec) permCheck(compKey, ref string, write bool) {
 			for _, o := range ex.owners(gt) {
 				hs = append(hs, sOr(ex.localObj(o), ex.permNeed(ex.muOf(gt, o, ex.curState), write)))
 			}
+			if len(hs) == 0 {
+				continue // no instance of the owning type is in sight: the object belongs to something else
+			}
 			ex.notePerm()
 			kind := "perm.read"
 			if write {
@@ -897,5 +900,71 @@ func (ex *Exec) havocAggregate(st *State, ref string, t types.Type, cond string)
 		cur := ex.get(st, k, as)
 		fresh := ex.vc.fresh("acq_"+k, srt)
 		ex.set(st, k, as, sIte(cond, sSto(cur, ref, fresh), cur))
+	}
+}
+
+// concCalleeFootprint: a callee under contract that works on objects of an `all T` type of some guarded type (the
+// list under a linked queue, the nodes under a tree) reads them, and writes them if its modifies clause names a
+// field of such a type: the caller must hold the owner's mutex in the corresponding mode (or the owner is local).
+func (ex *Exec) concCalleeFootprint(spec *FuncSpec, callee *ssa.Function, ev *Eval, pos token.Pos) {
+	if !ex.vc.conc || ex.vc.scratch || ex.vc.discover || spec == nil || len(spec.Lock) > 0 {
+		return
+	}
+	for _, tk := range sortedGuardKeys(ex.vc.guardTable()) {
+		gt := ex.vc.guardTable()[tk]
+		if len(gt.allOf) == 0 {
+			continue
+		}
+		touches := false
+		for _, p := range callee.Params {
+			if pt, ok := p.Type().Underlying().(*types.Pointer); ok {
+				if n, _ := types.Unalias(pt.Elem()).(*types.Named); n != nil {
+					for _, tn := range gt.allOf {
+						if namedKey(n) == tn {
+							touches = true
+						}
+					}
+				}
+			}
+		}
+		if !touches {
+			continue
+		}
+		write := false
+		nerr := len(ex.vc.errs)
+		saved := ex.vc.scratch
+		ex.vc.scratch = true
+		for _, m := range spec.Modifies {
+			for _, loc := range splitTop(m.Text, ',') {
+				loc = strings.TrimSpace(loc)
+				if loc == "" || loc == "nothing" || loc == "alloc" {
+					continue
+				}
+				for _, tg := range ev.modTargets(loc) {
+					for _, tn := range gt.allOf {
+						if strings.HasPrefix(tg.key, "F:"+tn+".") {
+							write = true
+						}
+					}
+				}
+			}
+		}
+		ex.vc.scratch = saved
+		ex.vc.errs = ex.vc.errs[:nerr]
+		var hs []string
+		for _, o := range ex.owners(gt) {
+			hs = append(hs, sOr(ex.localObj(o), ex.permNeed(ex.muOf(gt, o, ex.curState), write)))
+		}
+		if len(hs) == 0 {
+			continue
+		}
+		ex.notePerm()
+		kind := "perm.read"
+		if write {
+			kind = "perm.write"
+			ex.noteGuardedWrite()
+		}
+		ex.vc.oblige(fmt.Sprintf("%s[call %s of %s]", kind, callee.Name(), gt.key), "perm", pos, ex.curReach, sOr(hs...),
+			"callee "+callee.Name()+" works on objects owned by a "+gt.key+": its mutex must be held in the corresponding mode")
 	}
 }
